@@ -272,6 +272,20 @@ where
         rset: &mut RecordSet,
         n_records: Option<usize>,
     ) -> Option<Result<(), Error>> {
+        let res = self._read_record_set_exact(rset, n_records);
+        if let Some(Err(_)) = res {
+            // The positions found so far do not refer to the (old) buffer of the
+            // record set: do not leave it in an inconsistent state.
+            rset.npos = 0;
+        }
+        res
+    }
+
+    fn _read_record_set_exact(
+        &mut self,
+        rset: &mut RecordSet,
+        n_records: Option<usize>,
+    ) -> Option<Result<(), Error>> {
         debug_assert!(n_records.unwrap_or(usize::MAX) > 0);
         // after read_record_set(), the state is always Positioned, Parsing or Finished
         match self.state {
